@@ -25,7 +25,8 @@ for n in sorted(res):
 with open('/verif/refactorings/README.md','w') as f:
     f.write("# Behaviour-preserving refactorings (the checks must not raise an alarm)\n\n")
     f.write("Each directory holds a substantial refactoring of high-moctane/mocrelay written by a fresh sub-agent that saw only the text of one property and its own scratch worktree (nothing from /verif), with the instruction to change the internal mechanism noticeably while keeping the property; each compiles and keeps the existing suite green, and the authors compared old and new code differentially. `tools_refactor_matrix.sh` applies each in a scratch worktree and runs the quick checks of the properties its area touches. A refactoring keeps the property, so VIOLATION would be a false alarm; pass and INCONCLUSIVE (a harness could not follow the new code and says so) are acceptable outcomes.\n\n")
-    f.write(f"Last run: {len(rows)} refactorings, {nfa} reported as VIOLATION.\n\n")
+    f.write("The FIRST run (first_run.log) reported 7 of the 48 as VIOLATION: C18-r2, C18-r3, C20-r1, C20-r2, C20-r3, C12-r2, C15-r2. Each was traced to a harness that prescribed a mechanism rather than the property and corrected (DESIGN.md §0.6). last_matrix.log holds the first run followed by the re-runs made after the corrections; the table shows the latest outcome of every refactoring.\n\n")
+    f.write(f"Latest outcomes: {len(rows)} refactorings, {nfa} reported as VIOLATION.\n\n")
     f.write("| refactoring | what (first line of the author's notes) | outcome per check | first reason given |\n|---|---|---|---|\n")
     f.write('\n'.join(rows)+'\n')
 print(f"{len(rows)} refactorings, {nfa} false alarms")
